@@ -117,6 +117,10 @@ MUTANTS = [
     ("scaled_to_sparse_alpha", "bempp_cl/api/assembly/discrete_boundary_operator.py", "return self._alpha * self._op.to_sparse()", "return self._op.to_sparse()", 0, ["C14"]),
     ("cg_rhs_strong", "bempp_cl/api/linalg/iterative_solvers.py", "        A_op = A.strong_form()\n        b_vec = b.coefficients\n    else:\n        A_op = A.weak_form()\n        b_vec = b.projections(A.dual_to_range)\n\n    callback = IterationCounter(return_residuals, True, A_op, b_vec)", "        A_op = A.strong_form()\n        b_vec = b.projections(A.dual_to_range)\n    else:\n        A_op = A.weak_form()\n        b_vec = b.projections(A.dual_to_range)\n\n    callback = IterationCounter(return_residuals, True, A_op, b_vec)", 0, ["C15"]),
     ("gmres_result_space", "bempp_cl/api/linalg/iterative_solvers.py", "res_fun = GridFunction(A.domain, coefficients=x.ravel())", "res_fun = GridFunction(A.range, coefficients=x.ravel())", 1, ["C15"]),
+    ("gmres_returns_wrong_counter", "bempp_cl/api/linalg/iterative_solvers.py", "        return res_fun, info, callback.residuals, callback.count\n\n    if return_residuals:\n        return res_fun, info, callback.residuals\n\n    if return_iteration_count:\n        return res_fun, info, callback.count\n\n    return res_fun, info\n\n\ndef _gmres_block_op_imp", "        return res_fun, info, callback.residuals, callback.count\n\n    if return_residuals:\n        return res_fun, info, callback.count\n\n    if return_iteration_count:\n        return res_fun, info, callback.count\n\n    return res_fun, info\n\n\ndef _gmres_block_op_imp", 0, ["C15"]),
+    ("cg_residual_sign", "bempp_cl/api/linalg/iterative_solvers.py", "res = self._rhs - self._operator * x", "res = self._rhs + self._operator * x", 0, ["C15"]),
+    ("gmres_tol_dropped", "bempp_cl/api/linalg/iterative_solvers.py", "x, info = scipy.sparse.linalg.gmres(A_op, b_vec, rtol=tol, restart=restart, maxiter=maxiter, callback=callback)", "x, info = scipy.sparse.linalg.gmres(A_op, b_vec, restart=restart, maxiter=maxiter, callback=callback)", 0, ["C15"]),
+    ("lu_factor_path_rhs", "bempp_cl/api/linalg/direct_solvers.py", "        vec = b.projections(A.dual_to_range)\n", "        vec = b.coefficients\n", 0, ["C15"]),
     ("lu_blocked_spaces", "bempp_cl/api/linalg/direct_solvers.py", "return grid_function_list_from_coefficients(sol, A.domain_spaces)", "return grid_function_list_from_coefficients(sol, A.range_spaces)", 0, ["C15"]),
     ("export_element_source", "bempp_cl/api/grid/io.py", "data = _transform_array(grid_function.evaluate_on_element_centers(), transformation).T", "data = _transform_array(grid_function.evaluate_on_vertices(), transformation).T", 0, ["C19"]),
     ("export_complex_cell_block", "bempp_cl/api/grid/io.py", 'cell_data["imag"] = _np.array([_np.imag(data)])', 'cell_data["imag"] = _np.imag(data)', 0, ["C19"]),
@@ -167,7 +171,9 @@ EQUIVALENTS = [
     ("eq_filter_where", "bempp_cl/api/grid/grid.py", "filtered_indices = _np.argwhere(nvertices == filter_type).flatten()", "filtered_indices = _np.where(filter_type == nvertices)[0]", 0, ["C11"]),
     ("eq_edge_adj_rename", "bempp_cl/api/grid/grid.py", "        index_pairs = _get_shared_edge_information_for_two_elements(elements, elem0, elem1)\n        adjacency[0, index] = elem0\n        adjacency[1, index] = elem1\n        adjacency[2:, index] = index_pairs.flatten()", "        pairs = _get_shared_edge_information_for_two_elements(elements, elem0, elem1)\n        adjacency[2:, index] = pairs.flatten()\n        adjacency[1, index] = elem1\n        adjacency[0, index] = elem0", 0, ["C11", "C01", "C03"]),
     ("eq_export_rename", "bempp_cl/api/grid/io.py", "            data = _transform_array(grid_function.evaluate_on_vertices(), transformation).T\n            if _np.iscomplexobj(data):\n                point_data = {\"real\": _np.real(data), \"imag\": _np.imag(data)}", "            vals = grid_function.evaluate_on_vertices()\n            data = _transform_array(vals, transformation).T\n            if _np.iscomplexobj(data):\n                point_data = {\"imag\": _np.imag(data), \"real\": _np.real(data)}", 0, ["C19"]),
-    ("eq_solver_temp", "bempp_cl/api/linalg/direct_solvers.py", "        vec = b.projections(A.dual_to_range)\n", "        dual = A.dual_to_range\n        vec = b.projections(dual)\n", 0, []),
+    ("eq_solver_temp", "bempp_cl/api/linalg/direct_solvers.py", "        vec = b.projections(A.dual_to_range)\n", "        dual = A.dual_to_range\n        vec = b.projections(dual)\n", 0, ["C15"]),
+    ("eq_gmres_rename", "bempp_cl/api/linalg/iterative_solvers.py", "        A_op = A.strong_form()\n        b_vec = b.coefficients\n    else:\n        A_op = A.weak_form()\n        b_vec = b.projections(A.dual_to_range)\n\n    callback = IterationCounter(return_residuals)\n\n    bempp_cl.api.log(\"Starting GMRES iteration\")\n    start_time = time.time()\n    x, info = scipy.sparse.linalg.gmres(A_op, b_vec, rtol=tol, restart=restart, maxiter=maxiter, callback=callback)",
+     "        rhs = b.coefficients\n        op = A.strong_form()\n    else:\n        dual = A.dual_to_range\n        rhs = b.projections(dual)\n        op = A.weak_form()\n\n    counter = IterationCounter(return_residuals)\n    callback = counter\n\n    bempp_cl.api.log(\"Starting GMRES iteration\")\n    start_time = time.time()\n    out = scipy.sparse.linalg.gmres(op, rhs, callback=callback, maxiter=maxiter, restart=restart, rtol=tol)\n    x, info = out", 0, ["C15"]),
     ("eq_sparse_support_commute", "bempp_cl/core/sparse_assembler.py", "support = domain.support * dual_to_range.support", "support = dual_to_range.support * domain.support", 0, ["C13", "C04"]),
     ("eq_potential_sum_order", NK, "                    grid_data.integration_elements[element]\n                    * quad_weights[quad_point_index]\n                    * fun_values[0, fun_index, quad_point_index]\n                    * x[number_of_shape_functions * element + fun_index]", "                    x[number_of_shape_functions * element + fun_index]\n                    * quad_weights[quad_point_index]\n                    * grid_data.integration_elements[element]\n                    * fun_values[0, fun_index, quad_point_index]", 0, ["C02", "C08", "C16"]),
 ]
